@@ -50,6 +50,8 @@ type vzOracles struct {
 
 	// C10: what was durable when a node crashed, per node index
 	crashSnap map[int]*vzCrashSnap
+	fetchPrev map[string]map[string]uint64          // node incarnation/height/round -> kind/hash -> power in the previous voting view
+	fetchReq  map[string]bool                       // node incarnation/height/hash -> the mirror has asked for that proposed header
 	smEntered map[string][2]uint64                  // node incarnation -> height/round of the state machine's last round entrance seen by the kernel
 	smKnown   map[string]map[string]bool            // node incarnation/height/round -> votes the state machine has been handed for that round
 	offered   map[int]map[[2]uint64]map[string]bool // node -> round -> proposals offered to the strategy (current incarnation)
@@ -115,6 +117,8 @@ func (o *vzOracles) init(w *vzWorld) {
 	o.lastView = map[string]vzViewDigest{}
 	o.advChain = map[uint64]string{}
 	o.crashSnap = map[int]*vzCrashSnap{}
+	o.fetchReq = map[string]bool{}
+	o.fetchPrev = map[string]map[string]uint64{}
 	o.smEntered = map[string][2]uint64{}
 	o.smKnown = map[string]map[string]bool{}
 	o.offered = map[int]map[[2]uint64]map[string]bool{}
@@ -450,6 +454,17 @@ func (o *vzOracles) onHandled(nd *vzNode, m *vzMsg, kind, result string) {
 	}
 }
 
+// onReplayUnanswered: the process stopped while it was handling the replay; whether it would have
+// accepted it is unknown.
+func (o *vzOracles) onReplayUnanswered(nd *vzNode, hdr tmconsensus.Header) {
+	o.mu.Lock()
+	defer o.mu.Unlock()
+	if nd.disk.replayAccepted == nil {
+		nd.disk.replayAccepted = map[string]bool{}
+	}
+	nd.disk.replayAccepted[string(hdr.Hash)] = true
+}
+
 func (o *vzOracles) onReplayResult(nd *vzNode, hdr tmconsensus.Header, proof tmconsensus.CommitProof, expect string, err error) {
 	if o.w.s.Stopped() {
 		return
@@ -525,6 +540,9 @@ func (o *vzOracles) onGossipUpdate(nd *vzNode, u tmelink.NetworkViewUpdate) {
 			o.checkView(nd, "gossip-"+name, v)
 			o.checkResumedView(nd, "gossip "+name, v)
 		}
+	}
+	if u.Voting != nil {
+		o.checkFetchThreshold(nd, u.Voting)
 	}
 	if u.NilVotedRound != nil {
 		o.checkViewContent(nd, "gossip-nilvoted", u.NilVotedRound)
@@ -653,6 +671,64 @@ func (o *vzOracles) checkViewContent(nd *vzNode, where string, v *tmconsensus.Ve
 }
 
 // ---- C06
+
+func (o *vzOracles) onFetchRequest(nd *vzNode, h uint64, hash string) {
+	o.mu.Lock()
+	o.fetchReq[fmt.Sprintf("%s/%s", nd.ident(), hash)] = true // a block hash names one block at one height
+	o.mu.Unlock()
+	o.w.s.Probe("proposed_header_fetch_requested")
+}
+
+// checkFetchThreshold (C06): the mirror asks for a proposed header it lacks once the distinct validators
+// that voted for it hold at least a third of the power - each counted with its full power for every
+// target it signed. Judged on the voting view handed to gossip, which is published after the request.
+func (o *vzOracles) checkFetchThreshold(nd *vzNode, v *tmconsensus.VersionedRoundView) {
+	if !o.on["C06"] || nd.byz || nd.inc > 1 {
+		return
+	}
+	have := map[string]bool{}
+	for _, ph := range v.ProposedHeaders {
+		have[string(ph.Header.Hash)] = true
+	}
+	var total uint64
+	for _, val := range v.ValidatorSet.Validators {
+		total += val.Power
+	}
+	min := tmconsensus.ByzantineMinority(total)
+	// Only votes that were added to the round while it was the voting round are judged (the kernel
+	// decides about fetching when it adds votes to a view; votes a round brings along when it becomes
+	// the voting round were judged, if at all, against another view): the power must have grown since
+	// the previous voting view of the same round.
+	rk := fmt.Sprintf("%s/%d/%d", nd.ident(), v.Height, v.Round)
+	prev, hadPrev := o.fetchPrev[rk]
+	cur := map[string]uint64{}
+	o.fetchPrev[rk] = cur
+	var bs bitset.BitSet
+	for _, kind := range []string{"prevote", "precommit"} {
+		m := v.PrevoteProofs
+		if kind == "precommit" {
+			m = v.PrecommitProofs
+		}
+		var hashes []string
+		for hash := range m {
+			if hash != "" && !have[hash] {
+				hashes = append(hashes, hash)
+			}
+		}
+		sort.Strings(hashes)
+		for _, hash := range hashes {
+			m[hash].SignatureBitSet(&bs)
+			var pow uint64
+			for u, ok := bs.NextSet(0); ok && int(u) < len(v.ValidatorSet.Validators); u, ok = bs.NextSet(u + 1) {
+				pow += v.ValidatorSet.Validators[u].Power
+			}
+			cur[kind+"/"+hash] = pow
+			if hadPrev && pow > prev[kind+"/"+hash] && pow >= min && !o.fetchReq[fmt.Sprintf("%s/%s", nd.ident(), hash)] {
+				o.violate("C06", "fetch-not-requested/"+kind, "%s: voting view %d/%d version %d shows %ss of distinct validators with power %d (of %d, a third is %d) for %x, which the node has no proposed header for, but the mirror has not asked to fetch it", nd.ident(), v.Height, v.Round, v.Version, kind, pow, total, min, trunc(hash))
+			}
+		}
+	}
+}
 
 func (o *vzOracles) checkVoteSummary(nd *vzNode, where string, v *tmconsensus.VersionedRoundView) {
 	if !o.on["C06"] {
